@@ -34,6 +34,9 @@ def terminated_variants(streams):
     for s in streams:
         out.append(s + [13, 10, 46, 13, 10])
         out.append(s + [13, 10, 46, 13, 10, 120, 13, 10, 46, 10])
+        # recognised commands after the terminator: they must be recognised (and answered as such) however the stream is cut
+        out.append(s + [13, 10, 46, 13, 10] + list(b"NOOP\r\nQUIT\r\n"))
+        out.append(s + [13, 10, 46, 13, 10] + list(b"noop\r\nxyzzy\r\nNOOP\r\n"))
     return out
 
 
@@ -154,7 +157,11 @@ def main():
         reps = sessions.smtp_replies(out)
         codes = [c for c, _ in reps]
         if codes[:5] != [220, 250, 250, 250, 354]:
-            raise Infra("session preamble failed: %r" % out[:300])
+            if not cap:
+                raise Infra("session preamble failed: %r" % out[:300])
+            # the same four commands are accepted when they arrive in one read: under a read cap they were not recognised
+            recs.append({"s": stream, "cap": cap, "res": "pre", "msg": [], "q": 0, "nlf": -1, "rc": rc, "orig": [-1], "lim": 0, "aft": [-1]})
+            continue
         after = codes[5:]
         q = qrecs.get("s%d" % idx, [])
         msg, queued = [], False
@@ -177,7 +184,7 @@ def main():
             r = "other%d" % after[0]
         nlf = len([c for c in after[1:]]) if r == "end" else -1
         recs.append({"s": stream, "cap": cap, "res": r, "msg": msg, "q": 1 if queued else 0, "nlf": nlf, "rc": rc,
-                     "orig": orig.get(idx, [-1]), "lim": LIMIT if idx in limited else 0})
+                     "orig": orig.get(idx, [-1]), "lim": LIMIT if idx in limited else 0, "aft": (after[1:] if r == "end" else [-1])})
         ck.count((tuple(stream), cap), nontrivial=(13 in stream or 46 in stream))
     if hung > len(jobs) // 50:
         raise Infra("%d of %d sessions hung" % (hung, len(jobs)))
@@ -186,7 +193,7 @@ def main():
     # is not reused; the reference encoding of every line sequence is what RoundTrip covers in the model,
     # here the real qmail-remote output for CR-free messages must decode to the message itself)
     recfile = ck.scratch.path("c05.ndjson")
-    write_ndjson(recfile, [{"s": r["s"], "res": r["res"], "msg": r["msg"], "q": r["q"], "nlf": r["nlf"], "orig": r["orig"], "lim": r["lim"]} for r in recs])
+    write_ndjson(recfile, [{"s": r["s"], "res": r["res"], "msg": r["msg"], "q": r["q"], "nlf": r["nlf"], "orig": r["orig"], "lim": r["lim"], "aft": r["aft"]} for r in recs])
     bad, vres = tlc_validate_records("SmtpdBlastRec", "SmtpdBlastRec.cfg", recfile, len(recs), chunk=300)
     ck.add_tlc("SmtpdBlastRec", vres)
     ck.cov["traces_validated_against_impl"] = len(recs)
